@@ -131,8 +131,22 @@ def par_docs():
     valid = b"d4:infod6:lengthi1e4:name1:t12:piece lengthi4e6:pieces20:" + bytes(20) + b"ee"
     return [valid, b"d1:a" + b"l" * 400 + b"e" * 400 + valid[1:], b"l" * 900 + b"e" * 900, b"d1:ad1:b" + b"li1e" * 300 + b"e" * 300 + b"ee" + valid[1:], b"i1", b""]
 
-def load_stream(tier, seed):
+def nonplain_docs():
+    """every non-plain component in every position of a path, also behind components that other parts of the program give
+    a meaning to (`.pad`, an all-numeric name): a component is judged on its own, whatever its neighbours are"""
     out = []
+    for bad in G.BAD_COMPONENTS:
+        for path in ([bad], [b"d", bad], [bad, b"f"], [b".pad", bad], [b".pad", b"0", bad], [b".pad", bad, b"f"], [b"0", bad],
+                     [b".pad", b"7", bad, b"f"]):
+            d = G.benc(G.meta_doc(name=b"t", piece_length=4, files=[(3, [b"ok"]), (5, list(path))]))
+            out.append(("load " + hx(d), "non-plain component at a fixed place"))
+        for name in (bad,):
+            d = G.benc(G.meta_doc(name=name, piece_length=4, files=[(3, [b".pad", b"3"]), (5, [b"x"])]))
+            out.append(("load " + hx(d), "non-plain name, fixed"))
+    return out
+
+def load_stream(tier, seed):
+    out = nonplain_docs()
     n = 8000 if tier == "quick" else 250000
     for i in range(n):
         rng = Rng(seed, "load", i)
